@@ -9,6 +9,7 @@ by the kernel on the emitted JSON.
 """
 import copy
 import json
+import re
 import uuid
 
 import common
@@ -39,6 +40,7 @@ F_NL = "C02-dollar-anchor-trailing-newline"
 F_MD6 = "C02-md6-hash-regex-unanchored"
 F_TOP = "C02-toplevel-extension-without-extensions-property"
 F_EXT0 = "C02-empty-extensions-dictionary"
+F_MD20 = "C02-v20-marking-definition-created-without-milliseconds"
 
 
 def _ident(**kw):
@@ -75,6 +77,9 @@ def witness_cases():
     add("toplevel-extension-no-slot", "construct", "2.1/ExternalReference",
         {"source_name": "s", "url": "http://x", "extensions": top, "anything": "y"})
     add("empty-extensions", "parse", "2.1/Identity", _ident(extensions={}))
+    add("v20-marking-created-whole-second", "parse", "2.0/MarkingDefinition",
+        {"type": "marking-definition", "id": "marking-definition--" + U, "created": "2017-01-01T00:00:00Z",
+         "definition_type": "statement", "definition": {"statement": "s"}})
     add("selector-newline", "construct", "2.1/GranularMarking",
         {"selectors": ["name\n"], "marking_ref": "marking-definition--" + U})
     add("interop-id-newline", "parse", "2.1/Identity", _ident(id="identity--" + U + "\n"), interop=True)
@@ -182,7 +187,16 @@ def norm_top(j, cid=None):
     return {k: v for k, v in j.items() if k in names}
 
 
-NORMALISERS = [(F_UUID, norm_uuid), (F_CONF, norm_conf), (F_NL, norm_nl), (F_MD6, norm_md6), (F_EXT0, norm_ext0),
+def norm_md20(j, cid=None):
+    """Only a STIX 2.0 marking-definition whose `created` carries no fraction: write the three digits."""
+    if cid != "2.0/MarkingDefinition" or not isinstance(j, dict) or not isinstance(j.get("created"), str):
+        return j
+    if re.match(r"^\d{4}-\d{2}-\d{2}T\d{2}:\d{2}:\d{2}Z$", j["created"]):
+        return dict(j, created=j["created"][:-1] + ".000Z")
+    return j
+
+
+NORMALISERS = [(F_MD20, norm_md20), (F_UUID, norm_uuid), (F_CONF, norm_conf), (F_NL, norm_nl), (F_MD6, norm_md6), (F_EXT0, norm_ext0),
                (F_TOP, norm_top)]
 
 
@@ -193,13 +207,13 @@ def classify_invalid(items, pats):
     for n, (cid, j) in enumerate(items):
         alts = []
         for fid, f in NORMALISERS:
-            k = f(j, cid) if f is norm_top else f(j)
+            k = f(j, cid) if f in (norm_top, norm_md20) else f(j)
             if k != j:
                 alts.append(([fid], k))
         if len(alts) > 1:
             k = j
             for fid, f in NORMALISERS:
-                k = f(k, cid) if f is norm_top else f(k)
+                k = f(k, cid) if f in (norm_top, norm_md20) else f(k)
             alts.append(([a[0][0] for a in alts], k))
         for fids, k in alts:
             jobs.append((cid, k))
